@@ -84,7 +84,7 @@ def run_shard(ctx):
                 cid += 1
         # directory-set predicate: nested directory as extra lookup / same-name directory with collisions disallowed
         kind = r2.choice(["nested-child", "nested-child-with-sibling", "nested-child-with-sibling", "sibling-prefix-name", "nested-parent", "same-name",
-                          "same-name-case", "same-name-allowed", "same-dir-twice"])
+                          "same-name-case", "same-name-allowed", "same-dir-twice", "lookup-pair-mixed-case", "lookup-pair-mixed-case", "lookup-pair-mixed-case-allowed"])
         extra, allow, expect_reject = [], True, False
         if kind == "nested-child":
             sub = base / ns["roots"][0]["dir"] / "zz_nested"
@@ -116,6 +116,19 @@ def run_shard(ctx):
             (other / "Other.1.0.dsdl").write_text("@sealed\n")
             extra = [str(other)]
             allow = kind == "same-name-allowed"
+            expect_reject = not allow
+        if kind.startswith("lookup-pair-mixed-case"):
+            # two lookup directories (neither is the target root) whose names both contain capital letters and are equal when the letter
+            # case is ignored: a collision when collisions are disallowed, in whichever order they are given
+            allow = kind.endswith("-allowed")
+            a, b = r2.choice([("MyNs", "MyNs"), ("Sensors", "Sensors")] if allow else
+                             [("MyNs", "MyNs"), ("Vendor", "VENDOR"), ("MyNs", "mYnS"), ("Sensors", "Sensors"), ("aB", "Ab"), ("X", "X")])
+            for where, nm in (("elsewhere1", a), ("elsewhere2", b)):
+                (base / where / nm).mkdir(parents=True, exist_ok=True)
+                (base / where / nm / "Other.1.0.dsdl").write_text("@sealed\n")
+            extra = [str(base / "elsewhere1" / a), str(base / "elsewhere2" / b)]
+            if r2.random() < 0.5:
+                extra.reverse()
             expect_reject = not allow
         if kind == "same-dir-twice":
             # the same directory twice is one directory; but another directory of the same name among the lookups is a
